@@ -2,7 +2,11 @@
 
 package htmldoc
 
-import "strings"
+import (
+	"strings"
+
+	"github.com/tsawler/tabula/rag"
+)
 
 // vSnippets: HTML fragments (as a browser-tolerant author might write them) with the content markers they carry, in order.
 var vSnippets = []struct {
@@ -218,5 +222,48 @@ func H_C19_nested_header_footer_is_content() {
 		vAssert("nothing-duplicated", ok)
 		vAssert("nested-header-and-footer-are-content-in-every-mode", len(seq) == len(want) && vIsSubseq(want, seq))
 	}
+	vReach("end")
+}
+
+// H_C15_html_heading_options: the Markdown heading level is the source level shifted by the configured offset and
+// capped at the configured maximum, never below 1 or above 6.
+//
+//symgo:harness prop=C15 kernel=K3b-html-heading-options
+//symgo:desc HTML source with one heading h1..h6 (enumerated), optionally with a <br> inside it (enumerated), and a paragraph; MarkdownWithRAGOptions with HeadingLevelOffset in -2..7 and MaxHeadingLevel in 1..6 (both enumerated): the output has exactly one ATX heading line, "#" x clamp(level + offset, 1, min(max, 6)) followed by the heading text
+func H_C15_html_heading_options() {
+	lvl := vAnyIntIn(1, 6)
+	off := vAnyIntIn(-2, 7)
+	max := vAnyIntIn(1, 6)
+	h := string(rune('0' + lvl))
+	headHTML, headText := "HeadX", "HeadX"
+	if vAnyIntIn(0, 1) == 1 {
+		headHTML, headText = "Head<br>X", "Head X" // a line break inside the heading: still one ATX line
+	}
+	r, err := OpenReader(strings.NewReader(`<!DOCTYPE html><html><head><title>T</title></head><body><h` + h + `>` + headHTML + `</h` + h + `><p>Body text.</p></body></html>`))
+	vAssert("parses", err == nil && r != nil)
+	opts := rag.DefaultMarkdownOptions()
+	opts.IncludeMetadata, opts.IncludeTableOfContents = false, false
+	opts.HeadingLevelOffset, opts.MaxHeadingLevel = off, max
+	md, merr := r.MarkdownWithRAGOptions(ExtractOptions{NavigationExclusion: NavigationExclusionNone}, opts)
+	vAssert("markdown-no-error", merr == nil)
+	want := lvl + off
+	if want < 1 {
+		want = 1
+	}
+	if want > max {
+		want = max
+	}
+	if want > 6 {
+		want = 6
+	}
+	n := 0
+	for _, ln := range strings.Split(md, "\n") {
+		if strings.HasPrefix(ln, "#") {
+			n++
+			vAssert("heading-level-is-shifted-and-capped", ln == strings.Repeat("#", want)+" "+headText)
+		}
+	}
+	vAssert("exactly-one-heading-line", n == 1)
+	vAssert("heading-text-stays-in-the-heading", !strings.Contains(md, "\nX"))
 	vReach("end")
 }
